@@ -19,3 +19,11 @@ def fill(chk, NA):
         '(a) explicit-state BFS of the real walker paired with an independent grammar automaton: every grammar-permitted successor of every reachable (node, counter) state of every selectable map must land on the intended node with no error, and every segment no node can match must be refused; (b) every conformant document within one (quick) / two (thorough) deviations of the minimal document of every index entry through the whole validator with acknowledgement',
         'trusted: the independent map reading and first-match grammar (mc/grammar.py, mc/gen.py); documents the grammar itself finds ambiguous are skipped and counted; repeat counts are driven to max only when max<=10; two values per element',
         'explicit-state search over the real transition function (walk_tree.walk) with a reference grammar automaton, plus exhaustive bounded enumeration of conformant documents', 'E2+E3', 'DESIGN.md 3/C02')
+    chk('C16', 'model_checking',
+        'complete walk of the shipped configuration: all 36 index entries, all 31 map files, all ~30k nodes, both ways of locating the map directory, every qualifier probe of every same-position sibling group, every node fetched again by the path it reports; all compared with an independent XML reading',
+        'trusted: mc/grammar.py as the reading of the XML and its qualifier convention; both locating modes resolve to the same directory under /repo, so only differences in how the code reads the files are visible',
+        'exhaustive enumeration of a finite configuration space on the real loader, index and lookup functions', 'E1', 'DESIGN.md 3/C16')
+    chk('C17', 'model_checking',
+        'complete enumeration of a bounded path language (loop lists <=3/4 deep x segment id x qualifier x element x component, every string <=6 over a small alphabet as last component, ill-formed forms that must raise) against a regex-free recursive-descent parser, every node path of every loadable map, and an explicit-state BFS over set/get histories of length <=4/5 on Segments against a list-of-lists model with full read-back after every transition',
+        'trusted: the reference parser and segment model in mc/c17.py; combinations the statement leaves open (element 00, component 0, trailing slash, ...) are executed and counted, not judged',
+        'exhaustive product enumeration plus explicit-state breadth-first search over the real Segment/X12Path code', 'E1+E2', 'DESIGN.md 3/C17')
